@@ -235,7 +235,7 @@ pub fn exec_op(ctx: &Arc<Ctx>, op: &Op, caller: usize, nested: bool, local: &mut
             return;
         }
         Op::Open(g) => { let gt = &ctx.gates[*g]; *gt.open.lock().unwrap() = true; gt.cv.notify_all(); return; }
-        Op::DropObj(q) => { let o = ctx.objs[*q].lock().unwrap().take(); drop(o); return; }
+        Op::DropObj(q) => { desync::verif::log("api", "DROPOBJ", *q, String::new()); let o = ctx.objs[*q].lock().unwrap().take(); drop(o); return; }
         Op::Resume => { if let Some(r) = local.resumer.take() { let t = ctx.tick(); if let Some(o) = local.susp_op.take() { ctx.with_op(o, |x| x.end = t); } r.resume(); } return; }
         Op::DropResumer => { if let Some(r) = local.resumer.take() { let t = ctx.tick(); if let Some(o) = local.susp_op.take() { ctx.with_op(o, |x| x.end = t); } drop(r); } return; }
         Op::WaitEv(e) => { block_on(EventFut { ctx: ctx.clone(), e: *e }, None); return; }
@@ -252,13 +252,13 @@ pub fn exec_op(ctx: &Arc<Ctx>, op: &Op, caller: usize, nested: bool, local: &mut
         Op::Produce(k, n) => {
             for _ in 0..*n {
                 let sc = &ctx.streams[*k];
-                let w = { let mut st = sc.st.lock().unwrap(); let x = sc.pushed.fetch_add(1, SeqCst); st.0.push_back(x); st.2.take() };
+                let w = { let mut st = sc.st.lock().unwrap(); desync::verif::log("api", "PRODUCE", *k, String::new()); let x = sc.pushed.fetch_add(1, SeqCst); st.0.push_back(x); st.2.take() };
                 rt::thread::yield_now();
                 if let Some(w) = w { w.wake(); }
             }
             return;
         }
-        Op::CloseStream(k) => { let w = { let mut st = ctx.streams[*k].st.lock().unwrap(); st.1 = true; st.2.take() }; if let Some(w) = w { w.wake(); } return; }
+        Op::CloseStream(k) => { let w = { let mut st = ctx.streams[*k].st.lock().unwrap(); desync::verif::log("api", "CLOSE", *k, String::new()); st.1 = true; st.2.take() }; if let Some(w) = w { w.wake(); } return; }
         Op::Consume(n) => {
             use futures::StreamExt;
             if let Some((k, s)) = local.out.as_mut() {
